@@ -161,6 +161,10 @@ def remove_cand(
         if condense:
             clean_profile = clean_profile.condense_ballots()
 
+        # a ballot left with no candidates is exhausted: it carries no weight
+        if len(clean_profile.ballots) == 0:
+            return cast(COB, Ballot(weight=Fraction(0)))
+
         return cast(COB, clean_profile.ballots[0])
     else:
         clean_profile = None
